@@ -9,7 +9,9 @@ package main
 import (
 	"fmt"
 	"go/ast"
+	"go/parser"
 	"go/token"
+	"path/filepath"
 	"strconv"
 	"strings"
 )
@@ -769,5 +771,183 @@ func init() {
 		}
 		add("epKeySites", int64(sites), true)
 		add("epKeySitesCanonical", v, true)
+	})
+}
+
+// ---------------------------------------------------------------------------------------------
+// Purity of Parse / String / Tars2endpoint / Endpoint2tars (C18, stream conc): the Lean model of
+// these functions is a function of its argument.  The code is one as long as (a) every target
+// handed to the FlagSet (`pFlag.StringVar(&v, …)`, `pFlag.IntVar(&v, …)`) is a variable declared
+// inside Parse, and (b) none of the four functions writes, takes the address of, or calls a
+// method on a package-level variable of tars/util/endpoint.  Result: epParsePure (1/0), required
+// to be 1 by theorem C18_parse_pure_current_tree.
+
+func localNames(fd *ast.FuncDecl) map[string]bool {
+	out := map[string]bool{}
+	if fd.Recv != nil {
+		for _, p := range fd.Recv.List {
+			for _, id := range p.Names {
+				out[id.Name] = true
+			}
+		}
+	}
+	if fd.Type.Params != nil {
+		for _, p := range fd.Type.Params.List {
+			for _, id := range p.Names {
+				out[id.Name] = true
+			}
+		}
+	}
+	if fd.Type.Results != nil {
+		for _, p := range fd.Type.Results.List {
+			for _, id := range p.Names {
+				out[id.Name] = true
+			}
+		}
+	}
+	ast.Inspect(fd.Body, func(n ast.Node) bool {
+		switch x := n.(type) {
+		case *ast.AssignStmt:
+			if x.Tok == token.DEFINE {
+				for _, l := range x.Lhs {
+					if id, ok := l.(*ast.Ident); ok {
+						out[id.Name] = true
+					}
+				}
+			}
+		case *ast.ValueSpec:
+			for _, id := range x.Names {
+				out[id.Name] = true
+			}
+		case *ast.RangeStmt:
+			if x.Tok == token.DEFINE {
+				for _, e := range []ast.Expr{x.Key, x.Value} {
+					if id, ok := e.(*ast.Ident); ok {
+						out[id.Name] = true
+					}
+				}
+			}
+		}
+		return true
+	})
+	return out
+}
+
+func baseIdent(e ast.Expr) string {
+	for {
+		switch x := e.(type) {
+		case *ast.Ident:
+			return x.Name
+		case *ast.ParenExpr:
+			e = x.X
+		case *ast.StarExpr:
+			e = x.X
+		case *ast.IndexExpr:
+			e = x.X
+		case *ast.SelectorExpr:
+			e = x.X
+		default:
+			return ""
+		}
+	}
+}
+
+func init() {
+	extras = append(extras, func(add func(string, int64, bool)) {
+		dir := "tars/util/endpoint"
+		pf := parse(dir + "/parse.go")
+		if pf == nil {
+			return
+		}
+		// package-level variables of the package (all non-test files)
+		pkgVars := map[string]bool{}
+		matches, _ := filepath.Glob(filepath.Join(*repo, dir, "*.go"))
+		for _, m := range matches {
+			if strings.HasSuffix(m, "_test.go") {
+				continue
+			}
+			af, err := parser.ParseFile(token.NewFileSet(), m, nil, parser.SkipObjectResolution)
+			if err != nil {
+				continue
+			}
+			for _, d := range af.Decls {
+				if gd, ok := d.(*ast.GenDecl); ok && gd.Tok == token.VAR {
+					for _, s := range gd.Specs {
+						for _, id := range s.(*ast.ValueSpec).Names {
+							pkgVars[id.Name] = true
+						}
+					}
+				}
+			}
+		}
+		pure := true
+		say := func(f string, a ...interface{}) {
+			pure = false
+			fmt.Println("PARSE-IMPURE:", fmt.Sprintf(f, a...))
+		}
+		targets := 0
+		for _, fn := range []struct{ file, name string }{{dir + "/parse.go", "Parse"}, {dir + "/endpoint.go", "Endpoint.String"},
+			{dir + "/convert.go", "Tars2endpoint"}, {dir + "/convert.go", "Endpoint2tars"}} {
+			f := parse(fn.file)
+			fd := f.funcDecl(fn.name)
+			if fd == nil || fd.Body == nil {
+				continue
+			}
+			locals := localNames(fd)
+			shared := func(e ast.Expr) string {
+				if b := baseIdent(e); b != "" && !locals[b] && pkgVars[b] {
+					return b
+				}
+				return ""
+			}
+			ast.Inspect(fd.Body, func(n ast.Node) bool {
+				switch x := n.(type) {
+				case *ast.CallExpr:
+					sel, ok := x.Fun.(*ast.SelectorExpr)
+					if !ok {
+						return true
+					}
+					if fn.name == "Parse" && (strings.HasSuffix(sel.Sel.Name, "Var")) && len(x.Args) >= 1 {
+						if ue, ok := x.Args[0].(*ast.UnaryExpr); ok && ue.Op == token.AND {
+							targets++
+							if b := baseIdent(ue.X); b == "" || !locals[b] {
+								say("parse.go: Parse: the flag target `%s` of %s is not a variable declared inside Parse", exprStr(f.fset, ue.X), exprStr(f.fset, x.Fun))
+							}
+						}
+					}
+					if v := shared(sel.X); v != "" { // method call on a package-level variable (sync.Map, mutex, cache …)
+						say("%s: %s: calls %s on the package-level variable %s", fn.file, fn.name, sel.Sel.Name, v)
+					}
+				case *ast.UnaryExpr:
+					if x.Op == token.AND {
+						if v := shared(x.X); v != "" {
+							say("%s: %s: takes the address of the package-level variable %s", fn.file, fn.name, v)
+						}
+					}
+				case *ast.AssignStmt:
+					if x.Tok != token.DEFINE {
+						for _, l := range x.Lhs {
+							if v := shared(l); v != "" {
+								say("%s: %s: assigns to the package-level variable %s", fn.file, fn.name, v)
+							}
+						}
+					}
+				case *ast.IncDecStmt:
+					if v := shared(x.X); v != "" {
+						say("%s: %s: modifies the package-level variable %s", fn.file, fn.name, v)
+					}
+				}
+				return true
+			})
+		}
+		if targets == 0 {
+			anchorLost("parse.go: Parse: no `<flagset>.<T>Var(&v, …)` registrations found (flag targets)")
+			return
+		}
+		v := int64(1)
+		if !pure {
+			v = 0
+		}
+		add("epParsePure", v, true)
 	})
 }
